@@ -52,7 +52,9 @@ def zmask(draw, tier):
 def fit_case(draw, tier):
     mask, kind = draw(zmask(tier))
     k = draw(st.integers(1, 8))
-    pool = draw(st.sampled_from([10, 15, 36]))
+    pool = draw(st.sampled_from([10, 15, 36, 36, 200]))
+    if pool == 200:
+        k = min(k, 3)            # a few high-order modes (Noll indices beyond 64 / 128) on a small mask
     modes = draw(st.lists(st.integers(1, pool), min_size=k, max_size=k, unique=True))
     if draw(st.sampled_from([False, False, True])):
         modes = list(range(1, k + 1))
@@ -114,7 +116,16 @@ def fit_compose(case, ctx):
     with lentil_call("C12.fit", "zernike_fit"):
         # the mode list in any ordered list-like container
         margs, mform = gen.as_container(modes, sum(modes) + len(modes) + int(mask.shape[0]), array_like=True)
-        ctx.tag("modes_as:" + mform)
+        if mform == "ndarray" or max(modes) > 64:
+            # an index array in a narrow integer type that holds every index exactly (always for high indices)
+            dt = ["int64", "uint8", "int8", "int16", "uint16", "int32"][(sum(modes) + int(mask.shape[1])) % 6]
+            if max(modes) > 64:
+                dt = ["uint8", "int8", "uint8", "int16"][(sum(modes) + int(mask.shape[1])) % 4]
+                if max(modes) > np.iinfo(dt).max:
+                    dt = "uint8" if max(modes) <= 255 else "int16"
+            if max(modes) <= np.iinfo(dt).max:
+                margs, mform = np.asarray(modes, dtype=dt), "ndarray:" + dt
+        ctx.tag("modes_as:" + mform, "high_modes" if max(modes) > 64 else None)
         got = np.asarray(lentil.zernike_fit(opd, mask, margs, normalize=case["normalize"], **kw), dtype=float)
     if got.shape != c.shape or np.max(np.abs(got - c)) > tol:
         raise Violation("C12.fit.roundtrip", f"zernike_fit(modes={modes}, normalize={case['normalize']}, "
